@@ -78,6 +78,16 @@ def check_rename(n, gates, outs, blk, acc, net, ref):
                 except Exception as e:  # noqa: BLE001
                     acc.violation(f'rename_gate/raises-{type(e).__name__}', case, 'on the copy: ' + repr(e))
                     continue
+            twin = None
+            if new == 'zz_' + l and not blk:
+                # a second circuit assembled from the very same Gate objects (add_gate stores what it is given)
+                from cirbo.core.circuit import Circuit
+
+                twin = Circuit()
+                for g_ in c.gates.values():
+                    twin.add_gate(g_)
+                twin.set_outputs(list(c.outputs))
+                twin_before = refmodel.abstract(twin).key()
             try:  # query before mutating: remembered results would have to be invalidated
                 c.get_gates_truth_table()
                 c.get_truth_table()
@@ -86,6 +96,8 @@ def check_rename(n, gates, outs, blk, acc, net, ref):
             ok, r = guarded(acc, 'rename_gate', case, c.rename_gate, l, new)
             if not ok:
                 continue
+            if twin is not None and (refmodel.abstract(twin).key() != twin_before or refmodel.wellformed(twin)):
+                acc.violation('rename_gate/changes-another-circuit-sharing-gate-objects', case, f'{refmodel.abstract(twin).to_json()}')
             sub = lambda x: new if x == l else x  # noqa: E731
             want = refmodel.Net(
                 [sub(i) for i in net.inputs],
@@ -463,6 +475,18 @@ def check_replace_subcircuit(n, gates, outs, blk, acc, net, ref, only=None, tags
                             continue
                         if gv != want_out:
                             acc.violation('replace_subcircuit/truth-table-changed', case, f'result {got.to_json()}', {'replacement': tag.split('/')[0]})
+                        # the replacement circuit stays the caller's: re-labelling it afterwards must not reach the host
+                        try:
+                            inner = [g_ for g_ in subc.gates if g_ not in subc.inputs]
+                            if inner:
+                                subc.rename_gate(inner[0], 'zz_template_relabelled')
+                            if subc.inputs:
+                                subc.rename_gate(subc.inputs[0], 'zz_template_input')
+                        except Exception:  # noqa: BLE001
+                            pass
+                        else:
+                            if refmodel.abstract(c).key() != got.key() or refmodel.wellformed(c):
+                                acc.violation('replace_subcircuit/host-shares-state-with-the-replacement-circuit', case, '', {'replacement': tag.split('/')[0]})
                         acc.outcome('op', ('replace_subcircuit', 'ok', tag))
 
 
